@@ -17,7 +17,7 @@ variable {K : Type} [Field K] [LinearOrder K] [IsStrictOrderedRing K] [FloorRing
 sides of every constraint use declared used variables only, have finite literals, and have no `and`/`or` node
 that collapses to a non-0/1 value on the domains (`GoodS`; = not flagged `nary-singleton-nonbinary`).
 DEFINEDNESS IS NOT ASSUMED: it follows from the successful compilation (`LogicModel.obj_defined`,
-`process_defined`), except for the residual clause `VerdictDef` (finding 4). -/
+`process_defined`). -/
 structure LogicModel (m : Model (Ext K)) (d : List (DomVar (Ext K))) : Prop where
   obj : GoodS d m.objective
   cons : ∀ c ∈ m.constraints, SrcD d c
